@@ -4,7 +4,7 @@ CFG = {
     "id": "C11", "harness": "c11",
     "check_vo": "theories/Check/C11.vo", "prop_vo": "theories/Properties/C11.vo",
     "prop_file": "theories/Properties/C11.v",
-    "theory_files": ["theories/Graph/Nodes.v", "theories/Graph/NodesProofs.v"],
+    "theory_files": ["theories/Graph/Nodes.v", "theories/Graph/NodesProofs.v", "theories/Graph/NodesMore.v"],
     "level_text": "Coq theorems about an executable model of nodes.Struct (Value/Outdated/process/SetInput/Dependencies) and "
                   "parameter nodes, for every history of SetParam/Connect/Disconnect/Read from the unconnected graph on every "
                   "DAG: a read returns the from-scratch value of the current wiring and parameters, under EVERY dependency "
